@@ -221,6 +221,8 @@ type UploadCase struct {
 	Expect     map[string]int    `json:"expect,omitempty"` // "files.0" -> index of the file part
 	Field      string            `json:"field,omitempty"`
 	Defect     string            `json:"defect,omitempty"`
+	// CutTail: the request body is cut this many bytes before its end (a client that stops mid-file)
+	CutTail int `json:"cut_tail,omitempty"`
 }
 
 func (c UploadCase) body() ([]byte, string) {
@@ -240,7 +242,11 @@ func (c UploadCase) body() ([]byte, string) {
 		pw.Write(p.Data)
 	}
 	w.Close()
-	return buf.Bytes(), w.FormDataContentType()
+	b := buf.Bytes()
+	if c.CutTail > 0 && c.CutTail < len(b) {
+		b = b[:len(b)-c.CutTail]
+	}
+	return b, w.FormDataContentType()
 }
 
 // lookupPath walks the recorded argument tree ("files.0", "in.f", "ins.1.f").
@@ -504,6 +510,10 @@ func genUpload(t *rapid.T) UploadCase {
 	case 9:
 		c.Defect, c.WellFormed = "extra-unmapped-file", false
 		c.Parts = append(c.Parts, Part{Name: "zzz", IsFile: true, Filename: "z", Data: []byte("z")})
+	case 10, 11:
+		// the body stops inside (or right after) a file part: no closing boundary
+		c.Defect, c.WellFormed = "body-truncated", false
+		c.CutTail = rapid.SampledFrom([]int{1, 5, 20, 45, 60, 200, 1500}).Draw(t, "cut")
 	}
 	return c
 }
